@@ -16,7 +16,7 @@ for line in open(os.path.join(V, 'KNOWN_FINDINGS.txt')):
     m = re.match(r'finding:\s+property=(\S+)\s+class=(\S+)\s+(.*)$', line.strip())
     if m: finding.setdefault(m.group(1), []).append((m.group(2), m.group(3)))
 seeds = {}
-for f in sorted(glob.glob(os.path.join(V, 'seeded', '*', 'meta.json'))):
+for f in sorted(glob.glob(os.path.join(V, 'seeded', 'C*', 'meta.json'))):
     d = json.load(open(f)); seeds.setdefault(d['property'], []).append((os.path.basename(os.path.dirname(f)), d))
 
 sec4 = ["## 4. The properties (as built)\n",
